@@ -37,6 +37,12 @@ def ret(ix, site):
 
 
 def run(ix, R):
+    _run(ix, R)
+    from rules.common import memo_obligation
+    memo_obligation(ix, R, 'M.memo', ['taurex/data/spectrum/'], 'the observation classes')
+
+
+def _run(ix, R):
     # ---- 1. row sort
     site = A + '._sort_spectrum'
     with R.guard('1.sort', 'PERM', site, 'row sort'):
